@@ -21,6 +21,11 @@
  * rdlock/wrlock/unlock of rwlock k, M<k>/m<k> mutex lock/unlock (k = order
  * of first appearance in the window).
  *
+ * Scenarios: new | clone<0|x>[s<k>] [dump pages] | open <dump> <mmap policy> <pages> [reps] [clones] [[!]first dump]
+ * | read <dump> <policy> <as> <delta> <cache> <pages> [clones] | setattr <dump> <policy> <pages> <clones> <key> <new> <old>
+ * | getattr <dump> <policy> <pages> <clones> <key> [frames expected in a bitmap] | slot <contexts> <size> [slots in use]
+ * | xlat | attr <kind> | free | sysinit.  A failed attempt to make a block smaller is counted in shrink=<k>.
+ *
  * The allocation wrappers are this file's own (same contract as alloc.h:
  * link with kdf.ALLOC_WRAP; the harness itself uses __real_*).
  */
@@ -747,7 +752,8 @@ int main(void)
 				size_t k = fread(buf, 1, sizeof buf - 1, f); char *q;
 				buf[k] = 0; fclose(f);
 				if ((q = strstr(buf, "AddressSanitizer: ")) || (q = strstr(buf, "LeakSanitizer: ")))
-					sscanf(strchr(q, ':') + 2, "%47[A-Za-z-]", kind);
+					if (!strncmp(strchr(q, ':') + 2, "attempting double-free", 22)) strcpy(kind, "double-free");
+					else sscanf(strchr(q, ':') + 2, "%47[A-Za-z-]", kind);
 				else if ((q = strstr(buf, "runtime error: ")))
 					strcpy(kind, "ubsan");
 			}
